@@ -14,7 +14,8 @@ Check(name, ok) == ok \/ PrintT(<<"VIOL", name, l>>)
 
 P == Prefs(T.cl, T.allowed, T.base)
 LangOf(p) == Pick(P, T.base, T.tr[p])
-HasPart(p) == IF LangOf(p) = T.base THEN T.native[p] ELSE TRUE
+\* (a translation of several elements that are all empty wins like any other and yields nothing)
+HasPart(p) == IF LangOf(p) = T.base THEN T.native[p] ELSE T.tr[p][LangOf(p)] # "blanks"
 ExpLocale == MsgLang([text |-> HasPart("text"), attachments |-> HasPart("attachments"), quick_replies |-> HasPart("quick_replies")],
                      [text |-> LangOf("text"), attachments |-> LangOf("attachments"), quick_replies |-> LangOf("quick_replies")])
 \* a part that is natively absent and not translated yields no value: observed source ""
